@@ -9,6 +9,8 @@
 #include <bxdecay0/event.h>
 #include <bxdecay0/i_random.h>
 #include "pool.hpp"
+#include <fcntl.h>
+#include <csignal>
 #include "sanhook.hpp"
 #include "stream.hpp"
 #include <algorithm>
@@ -485,6 +487,137 @@ static void check_reuse(const std::string & root, const std::string & dsA, const
     }
 }
 
+// ---- the dataset is selected by (version, nuclide, process): dataset B installed under root A as another version / another
+// nuclide / another process must be what an object configured for that version / nuclide / process samples - exactly like an
+// object that finds B at the default place - and the default place must still give A (both methods)
+#include <filesystem>
+static void check_selection(const std::string & root, const std::string & dsA, const std::string & dsB)
+{
+  using G = bxdecay0::dbd_gA;
+  namespace fs = std::filesystem;
+  const G::shooting_type METH[2] = {G::SHOOTING_INVERSE_TRANSFORM_METHOD, G::SHOOTING_REJECTION};
+  struct Variant { const char * tag; const char * version; const char * nuclide; G::process_type process; const char * dir; };
+  const Variant VAR[] = {{"version v2.0", "v2.0", "Test", G::PROCESS_G0, "data/dbd_gA/v2.0/Test/g0"},
+                         {"process g2", "", "Test", G::PROCESS_G2, "data/dbd_gA/v1.0/Test/g2"},
+                         {"process g22", "", "Test", G::PROCESS_G22, "data/dbd_gA/v1.0/Test/g22"},
+                         {"process g4", "", "Test", G::PROCESS_G4, "data/dbd_gA/v1.0/Test/g4"},
+                         {"nuclide Se82", "", "Se82", G::PROCESS_G0, "data/dbd_gA/v1.0/Se82/g0"}};
+  std::error_code ec;
+  const double us[] = {1e-12, 0.2, 0.5, 0.8, 1 - 1e-12};
+  for (int m = 0; m < 2; m++) {
+    for (auto & v : VAR) {
+      fs::create_directories(root + "/" + dsA + "/" + v.dir, ec);
+      for (auto & e : fs::directory_iterator(root + "/" + dsB + "/data/dbd_gA/v1.0/Test/g0", ec))
+        fs::copy_file(e.path(), root + "/" + dsA + "/" + v.dir + "/" + e.path().filename().string(), fs::copy_options::overwrite_existing, ec);
+    }
+    auto conf = [&](G & g, const std::string & ds, const Variant * v) {
+      setenv("BXDECAY0_DBD_GA_DATA_DIR", (root + "/" + ds).c_str(), 1);
+      g.set_nuclide(v ? v->nuclide : "Test");
+      g.set_process(v ? v->process : G::PROCESS_G0);
+      if (v && v->version[0]) g.set_dataset_version(v->version);
+      g.set_shooting(METH[m]);
+      g.initialize();
+    };
+    auto same = [&](G & x, G & y, const std::string & key, const std::string & what) {
+      for (double a : us)
+        for (double b : us) {
+          Seq r1, r2;
+          r1.v = {a, b, 0.5};
+          r2.v = r1.v;
+          r1.horizon = r2.horizon = 300000;
+          double x1 = -1, y1 = -1, x2 = -2, y2 = -2;
+          bool t1 = false, t2 = false;
+          try { x.shoot_e1_e2(r1, x1, y1); } catch (std::exception &) { t1 = true; }
+          try { y.shoot_e1_e2(r2, x2, y2); } catch (std::exception &) { t2 = true; }
+          g_eval++;
+          g_nontrivial++;
+          if (t1 != t2 || (!t1 && (x1 != x2 || y1 != y2 || r1.i != r2.i))) {
+            V(key, fmt("deviates (%.17g, %.17g), method %d: %s gives e1=%.17g e2=%.17g, the dataset itself e1=%.17g e2=%.17g", a, b, m, what.c_str(), x1, y1, x2, y2));
+            return;
+          }
+        }
+    };
+    for (auto & v : VAR) {
+      G sel, ref;
+      bool ok1 = true, ok2 = true;
+      try { conf(sel, dsA, &v); } catch (std::exception &) { ok1 = false; }
+      try { conf(ref, dsB, nullptr); } catch (std::exception &) { ok2 = false; }
+      std::string key = std::string("select:") + v.tag;
+      if (ok1 != ok2) {
+        V(key + ":init", fmt("%s installed as %s next to %s: initialisation %s, at its own place it %s (method %d)", dsB.c_str(), v.tag, dsA.c_str(), ok1 ? "succeeds" : "throws", ok2 ? "succeeds" : "throws", m));
+        continue;
+      }
+      if (!ok1) continue;
+      same(sel, ref, key, fmt("an object configured for %s under a root that also holds %s at the default place", v.tag, dsA.c_str()));
+    }
+    // and the default selection is not disturbed by the neighbours
+    {
+      G dflt, ref;
+      bool ok1 = true, ok2 = true;
+      try { conf(dflt, dsA, nullptr); } catch (std::exception &) { ok1 = false; }
+      for (auto & v : VAR) fs::remove_all(root + "/" + dsA + "/" + v.dir, ec);
+      try { conf(ref, dsA, nullptr); } catch (std::exception &) { ok2 = false; }
+      if (ok1 && ok2) same(dflt, ref, "select:default", "the default selection with other versions / processes / nuclides installed next to it");
+      else if (ok1 != ok2) V("select:default:init", "the default selection initialises differently with other versions / processes / nuclides installed next to it");
+    }
+  }
+}
+
+// ---- a sampler that has already produced many pairs must sample like a new one: N shots on a recorded stream, then a grid of
+// scripted trials (proposal x acceptance deviate, incl. acceptance deviates just below 1) on the used and on a new object
+static void check_long_history(const std::string & root, const std::string & ds, long nshots)
+{
+  using G = bxdecay0::dbd_gA;
+  const G::shooting_type METH[2] = {G::SHOOTING_INVERSE_TRANSFORM_METHOD, G::SHOOTING_REJECTION};
+  const double us[] = {1e-12, 0.1, 0.3, 0.5, 0.7, 0.9, 1 - 1e-12};
+  const double cs[] = {1e-12, 0.3, 0.6, 0.8, 0.9, 0.95, 0.99, 0.999, 1 - 1e-12};
+  for (int m = 0; m < 2; m++) {
+    G used, fresh;
+    try {
+      for (G * g : {&used, &fresh}) {
+        setenv("BXDECAY0_DBD_GA_DATA_DIR", (root + "/" + ds).c_str(), 1);
+        g->set_nuclide("Test");
+        g->set_process(G::PROCESS_G0);
+        g->set_shooting(METH[m]);
+        g->initialize();
+      }
+    } catch (std::exception &) {
+      continue; // this dataset does not have the table of this method
+    }
+    {
+      Seq r;
+      r.phase = 4711;
+      r.horizon = (size_t)1 << 40;
+      double e1, e2;
+      try {
+        for (long k = 0; k < nshots; k++) used.shoot_e1_e2(r, e1, e2);
+      } catch (std::exception & e) {
+        V("long:" + ds + ":exception", ds + fmt(": shot of a %ld-shot history throws: ", nshots) + e.what());
+        continue;
+      }
+    }
+    for (double a : us)
+      for (double b : us)
+        for (double c : cs) {
+          Seq r1, r2;
+          r1.v = {a, b, c};
+          r2.v = r1.v;
+          r1.horizon = r2.horizon = 300000;
+          double x1 = -1, y1 = -1, x2 = -2, y2 = -2;
+          bool t1 = false, t2 = false;
+          try { used.shoot_e1_e2(r1, x1, y1); } catch (std::exception &) { t1 = true; }
+          try { fresh.shoot_e1_e2(r2, x2, y2); } catch (std::exception &) { t2 = true; }
+          g_eval++;
+          g_nontrivial++;
+          if (t1 != t2 || (!t1 && (x1 != x2 || y1 != y2 || r1.i != r2.i))) {
+            V("long:history", fmt("%s, method %d, deviates (%.17g, %.17g, %.17g): after %ld earlier shots the object gives e1=%.17g e2=%.17g (%zu deviates), a new object e1=%.17g e2=%.17g (%zu)", ds.c_str(), m, a, b,
+                                  c, nshots, x1, y1, r1.i, x2, y2, r2.i));
+            return;
+          }
+        }
+  }
+}
+
 // run fn in a forked child (an abort or crash inside the library is an outcome, not the end of the check) and merge its findings
 static void contained(const std::string & label, const std::function<void()> & fn)
 {
@@ -577,6 +710,24 @@ static void check_modes(const std::string & tree)
     }
 }
 
+// an abort or crash of the library inside the in-process dataset sequence (it must stay one process: the history of earlier
+// datasets is the point) ends as a violation naming the dataset, not as a dead harness
+static char g_stage[300];
+static char g_crash_path[600];
+static void on_fatal(int sig)
+{
+  int fd = open(g_crash_path, O_WRONLY | O_CREAT | O_TRUNC, 0644);
+  if (fd >= 0) {
+    char b[64];
+    int n = snprintf(b, sizeof b, "signal %d\n", sig);
+    ssize_t w = write(fd, b, n);
+    w = write(fd, g_stage, strlen(g_stage));
+    (void)w;
+    close(fd);
+  }
+  _exit(77);
+}
+
 int main(int argc, char ** argv)
 {
   std::string list, out = "/dev/stdout", root, modes_tree;
@@ -596,7 +747,17 @@ int main(int argc, char ** argv)
   while (std::getline(in, ds))
     if (!ds.empty()) all.push_back(ds);
   for (auto & d : all) pristine_digest(root, d); // before this process samples anything
-  for (auto & d : all) {
+  snprintf(g_crash_path, sizeof g_crash_path, "%s.crash", out.c_str());
+  unlink(g_crash_path);
+  {
+    struct sigaction sa;
+    memset(&sa, 0, sizeof sa);
+    sa.sa_handler = on_fatal;
+    for (int sg : {SIGSEGV, SIGABRT, SIGBUS, SIGFPE, SIGILL}) sigaction(sg, &sa, nullptr);
+  }
+  for (size_t di = 0; di < all.size(); di++) {
+    const std::string & d = all[di];
+    snprintf(g_stage, sizeof g_stage, "%s (dataset #%zu of this process%s%s)", d.c_str(), di + 1, di ? ", after " : "", di ? all[di - 1].c_str() : "");
     check_dataset(root, d);
     auto it = g_pristine.find(d);
     if (it != g_pristine.end()) {
@@ -606,12 +767,15 @@ int main(int argc, char ** argv)
         V("history:" + d, d + ": the pairs sampled for fixed deviate streams (both methods, 16 streams) differ between a pristine process and this process after other datasets were sampled");
     }
   }
+  for (int sg : {SIGSEGV, SIGABRT, SIGBUS, SIGFPE, SIGILL}) signal(sg, SIG_DFL);
   if (!modes_tree.empty()) contained("generator-level gA modes", [&]() { check_modes(modes_tree); });
   // consecutive datasets of the list differ in size, range or shape: both orders
   for (size_t k = 0; k + 1 < all.size(); k++) {
     contained("reuse " + all[k + 1] + " after " + all[k], [&]() { check_reuse(root, all[k], all[k + 1]); });
     contained("reuse " + all[k] + " after " + all[k + 1], [&]() { check_reuse(root, all[k + 1], all[k]); });
   }
+  for (size_t k = 0; k < all.size(); k += 20) contained("long history " + all[k], [&]() { check_long_history(root, all[k], 30000); });
+  for (size_t k = 0; k + 1 < all.size(); k += 12) contained("selection " + all[k + 1] + " next to " + all[k], [&]() { check_selection(root, all[k], all[k + 1]); });
   FILE * fo = fopen(out.c_str(), "w");
   fprintf(fo, "{\"evaluations\":%ld,\"nontrivial\":%ld,\"datasets\":%ld,\"cdf_lines\":%ld,\"samples\":[", g_eval, g_nontrivial, g_datasets, g_lines);
   for (size_t k = 0; k < g_samples.size(); k++) fprintf(fo, "%s%s", k ? "," : "", vx::jstr(g_samples[k]).c_str());
